@@ -405,7 +405,7 @@ func (p *Parser) parseAssignStmt() ast.Statement {
 		return nil
 	}
 
-	stmt.Value = p.parseExpression(SUM)
+	stmt.Value = p.parseExpression(LOWEST)
 
 	return stmt
 }
